@@ -64,7 +64,7 @@ func finiteR(r canvas.Rect) bool {
 	}
 	return true
 }
-func closeRel(a, b float64) bool { return math.Abs(a-b) <= math.Abs(b)*0x1p-40 }
+func closeRel(a, b float64) bool   { return math.Abs(a-b) <= math.Abs(b)*0x1p-40 }
 func flags(f float64) (bool, bool) { return f == 1 || f == 3, f == 2 || f == 3 }
 
 // segment as seen by the witness search
@@ -146,7 +146,18 @@ func witness(segs []wseg, side int, target float64) string {
 		}
 		a := s.arc
 		cs, sn := float64(a.CsN)/float64(a.H), float64(a.SnN)/float64(a.H)
-		cands := [][2]float64{{float64(a.Us[0]) / float64(a.Us[2]), float64(a.Us[1]) / float64(a.Us[2])}, {float64(a.Ue[0]) / float64(a.Ue[2]), float64(a.Ue[1]) / float64(a.Ue[2])}}
+		// the end points of the arc (exact): parameter 0 / 1
+		for k, pt := range [][2]float64{{a.Sx, a.Sy}, {a.Ex, a.Ey}} {
+			val := pt[0]
+			if side == 1 || side == 3 {
+				val = pt[1]
+			}
+			if d := math.Abs(val - target); d < best {
+				best = d
+				w = fmt.Sprintf("(WT %s %d)", cq.N(i), k)
+			}
+		}
+		var cands [][2]float64
 		nx := math.Hypot(a.Rx*cs, a.Ry*sn)
 		ny := math.Hypot(a.Rx*sn, a.Ry*cs)
 		ext := [][2]float64{{a.Rx * cs / nx, -a.Ry * sn / nx}, {-a.Rx * cs / nx, a.Ry * sn / nx}, {a.Rx * sn / ny, a.Ry * cs / ny}, {-a.Rx * sn / ny, -a.Ry * cs / ny}}
@@ -180,6 +191,63 @@ func witness(segs []wseg, side int, target float64) string {
 		}
 	}
 	return w
+}
+
+// freeArc: an arc with dyadic end points and radii whose centre is irrational in general. The centre is computed
+// here (own implementation of the SVG implementation notes, binary64) and VALIDATED by the judge: both end points
+// must lie on the ellipse around it within 2^-40 and the flags must agree with the orientation of (start, end).
+// A third of the cases have phi = 0, a horizontal chord and |x2-x1| = k*rx with k in {1/2, 1, 3/2}.
+func freeArc(r *rng.R) gen.CPath {
+	step := 0.25
+	g := func(lo, hi int) float64 { return float64(r.Range(lo, hi)) * step }
+	for {
+		var cs, sn, h int64 = 1, 0, 1
+		rx := g(8, 400)
+		ry := g(4, 400)
+		if ry > rx {
+			rx, ry = ry, rx
+		}
+		if rx == ry && r.Bool() {
+			ry = rx / 2
+		}
+		x1, y1 := g(-200, 200), g(-200, 200)
+		var x2, y2 float64
+		fam := "arc-free"
+		if r.P(1, 3) {
+			fam = "arc-chord"
+			k := rng.Pick(r, []float64{0.5, 1, 1, 1.5})
+			if r.Bool() {
+				k = -k
+			}
+			x2, y2 = x1+k*rx, y1
+		} else {
+			if rx != ry && r.Bool() {
+				t := rng.Pick(r, [][3]int64{{3, 4, 5}, {5, 12, 13}, {8, 15, 17}, {-3, 4, 5}, {4, 3, 5}, {0, 1, 1}})
+				cs, sn, h = t[0], t[1], t[2]
+			}
+			x2, y2 = x1+g(-int(ry*4), int(ry*4)), y1+g(-int(ry*4), int(ry*4))
+		}
+		if x1 == x2 && y1 == y2 {
+			continue
+		}
+		c, s := float64(cs)/float64(h), float64(sn)/float64(h)
+		x1p := c*(x1-x2)/2 + s*(y1-y2)/2
+		y1p := -s*(x1-x2)/2 + c*(y1-y2)/2
+		if x1p*x1p/(rx*rx)+y1p*y1p/(ry*ry) > 0.9 {
+			continue // radii (nearly) too small: ArcTo would rescale them
+		}
+		large, sweep := r.Bool(), r.Bool()
+		sq := (rx*rx*ry*ry - rx*rx*y1p*y1p - ry*ry*x1p*x1p) / (rx*rx*y1p*y1p + ry*ry*x1p*x1p)
+		coef := math.Sqrt(sq)
+		if large == sweep {
+			coef = -coef
+		}
+		cxp, cyp := coef*rx*y1p/ry, -coef*ry*x1p/rx
+		a := &gen.ArcInfo{Rx: rx, Ry: ry, CsN: cs, SnN: sn, H: h, Sx: x1, Sy: y1, Ex: x2, Ey: y2, Large: large, Sweep: sweep, Approx: true}
+		a.Cx, a.Cy = c*cxp-s*cyp+(x1+x2)/2, s*cxp+c*cyp+(y1+y2)/2
+		a.RotDeg = math.Atan2(float64(sn), float64(cs)) * 180 / math.Pi
+		return gen.CPath{Family: fam, Start: [2]float64{x1, y1}, Segs: []gen.CSeg{{Kind: 'A', Arc: a}}}
+	}
 }
 
 func samples(r *rng.R, n int) string {
@@ -217,7 +285,11 @@ func main() {
 			p = canvas.MustParseSVGPath(*svg)
 			cp.Family = "literal"
 		} else {
-			cp = gen.Curved(r)
+			if r.P(1, 6) {
+				cp = freeArc(r)
+			} else {
+				cp = gen.Curved(r)
+			}
 			p = build(cp)
 		}
 		in, err := pd.Decode(p.Data())
